@@ -353,3 +353,146 @@ func (w *World) CanonBytes(withGhost bool) []byte {
 func (w *World) Hash(withGhost bool) [32]byte {
 	return sha256.Sum256(w.CanonBytes(withGhost))
 }
+
+// ---------------------------------------------------------------------------------------------
+// compact storage of frontier states (the explorer keeps encoded worlds, not object graphs)
+
+type reader struct {
+	b   []byte
+	off int
+}
+
+func (r *reader) bytes() []byte {
+	n := int(binary.BigEndian.Uint32(r.b[r.off:]))
+	r.off += 4
+	out := r.b[r.off : r.off+n]
+	r.off += n
+	return out
+}
+
+func (r *reader) u64() uint64 {
+	v := binary.BigEndian.Uint64(r.b[r.off:])
+	r.off += 8
+	return v
+}
+
+func encodeMsgs(b *bytes.Buffer, ms []Msg) {
+	wu(b, uint64(len(ms)))
+	for _, m := range ms {
+		wb(b, m.canon())
+	}
+}
+
+func decodeMsg(raw []byte) Msg {
+	r := &reader{b: raw}
+	var m Msg
+	m.From = append([]byte(nil), r.bytes()...)
+	m.To = append([]byte(nil), r.bytes()...)
+	m.Data = append([]byte(nil), r.bytes()...)
+	if v := r.bytes(); len(v) > 0 {
+		m.Value, _ = new(big.Int).SetString(string(v), 10)
+	}
+	m.GasLimit = r.u64()
+	m.GasLocked = r.u64()
+	m.CallType = vmcommon.CallType(r.u64())
+	flags := r.u64()
+	m.Refund, m.FromSys, m.OrigAsync = flags&1 != 0, flags&2 != 0, flags&4 != 0
+	return m
+}
+
+// Encode serialises the complete world (ghost included) for compact storage.
+func (w *World) Encode() []byte {
+	var b bytes.Buffer
+	wu(&b, uint64(len(w.Shards)))
+	for _, s := range w.Shards {
+		wu(&b, uint64(len(s.Accts)))
+		for _, a := range s.Accts {
+			wb(&b, a.Addr)
+			wu(&b, uint64(len(a.Storage)))
+			for k, v := range a.Storage {
+				wb(&b, []byte(k))
+				wb(&b, v)
+			}
+			wb(&b, a.Balance.Bytes())
+			wb(&b, a.Owner)
+			wb(&b, a.UserName)
+			wb(&b, a.DevReward.Bytes())
+			wu(&b, a.Nonce)
+			wb(&b, a.CodeMetadata)
+		}
+	}
+	encodeMsgs(&b, w.Inflight)
+	encodeMsgs(&b, w.Stuck)
+	wu(&b, uint64(len(w.Payable)))
+	for k, v := range w.Payable {
+		wb(&b, []byte(k))
+		wu(&b, uint64(v))
+	}
+	wu(&b, uint64(len(w.Ghost.Highest)))
+	for k, v := range w.Ghost.Highest {
+		wb(&b, []byte(k))
+		wu(&b, v)
+	}
+	wu(&b, uint64(len(w.Ghost.Issued)))
+	for k, v := range w.Ghost.Issued {
+		wb(&b, []byte(k))
+		wb(&b, v)
+	}
+	return b.Bytes()
+}
+
+// Decode rebuilds a world from Encode's output; meta is the (constant) metachain address set.
+func Decode(enc []byte, meta map[string]bool) *World {
+	r := &reader{b: enc}
+	w := &World{Payable: map[string]int8{}, Meta: meta}
+	ns := int(r.u64())
+	for i := 0; i < ns; i++ {
+		sh := &Shard{ID: uint32(i), Accts: map[string]*Account{}}
+		na := int(r.u64())
+		for j := 0; j < na; j++ {
+			a := NewAccount(r.bytes())
+			nk := int(r.u64())
+			for k := 0; k < nk; k++ {
+				key := string(r.bytes())
+				a.Storage[key] = append([]byte(nil), r.bytes()...)
+			}
+			a.Balance = new(big.Int).SetBytes(r.bytes())
+			a.Owner = append([]byte(nil), r.bytes()...)
+			a.UserName = append([]byte(nil), r.bytes()...)
+			a.DevReward = new(big.Int).SetBytes(r.bytes())
+			a.Nonce = r.u64()
+			a.CodeMetadata = append([]byte(nil), r.bytes()...)
+			sh.Accts[string(a.Addr)] = a
+		}
+		w.Shards = append(w.Shards, sh)
+	}
+	for k := 0; k < 2; k++ {
+		n := int(r.u64())
+		ms := make([]Msg, 0, n)
+		for i := 0; i < n; i++ {
+			ms = append(ms, decodeMsg(r.bytes()))
+		}
+		if k == 0 {
+			w.Inflight = ms
+		} else {
+			w.Stuck = ms
+		}
+	}
+	np := int(r.u64())
+	for i := 0; i < np; i++ {
+		k := string(r.bytes())
+		w.Payable[k] = int8(r.u64())
+	}
+	w.Ghost = Ghost{Highest: map[string]uint64{}, Issued: map[string][]byte{}}
+	nh := int(r.u64())
+	for i := 0; i < nh; i++ {
+		k := string(r.bytes())
+		w.Ghost.Highest[k] = r.u64()
+	}
+	ni := int(r.u64())
+	for i := 0; i < ni; i++ {
+		k := string(r.bytes())
+		w.Ghost.Issued[k] = append([]byte(nil), r.bytes()...)
+	}
+	return w
+}
